@@ -1,6 +1,7 @@
 package props
 
 import (
+	"fmt"
 	"strings"
 	"testing"
 
@@ -95,6 +96,9 @@ func TestC03(t *testing.T) {
 		if rapid.IntRange(0, 3).Draw(rt, "namecollision") == 0 {
 			addNameCollision(rt, c, f)
 		}
+		if rapid.IntRange(0, 2).Draw(rt, "nullarrays") == 0 {
+			addNullItemArrays(rt, c, f)
+		}
 		files := []*model.File{f}
 		if rapid.IntRange(0, 3).Draw(rt, "samelocalref") == 0 {
 			files = append(files, addSameLocalRefSibling(rt, c, f))
@@ -123,6 +127,24 @@ func TestC03(t *testing.T) {
 		c.Sample(sampleOf(cs, jobs))
 		return &RunCase{Case: cs, Jobs: jobs, Model: modelIfSingle(cs, f)}
 	}, stdJudge)
+}
+
+// addNullItemArrays adds required arrays (nesting 1-4, at least one element per
+// level) whose innermost items are of type null: only null is accepted there.
+func addNullItemArrays(t *rapid.T, c *core.Ctx, f *model.File) {
+	if f.Root.Kind != model.KObject {
+		return
+	}
+	depth := rapid.IntRange(1, 4).Draw(t, "nullarrdepth")
+	one := 1
+	n := &model.Node{Kind: model.KNull}
+	for i := 0; i < depth; i++ {
+		n = &model.Node{Kind: model.KArray, Items: n, MinItems: &one}
+	}
+	name := fmt.Sprintf("znullarr%d", depth)
+	f.Root.Props = append(f.Root.Props, model.Prop{Name: name, Node: n})
+	f.Root.Required = append(f.Root.Required, name)
+	c.Count(fmt.Sprintf("shape.null_items_depth%d", depth))
 }
 
 func TestC02(t *testing.T) {
